@@ -437,6 +437,47 @@ func runProperty(eng *Engine, prop, tier string, opts solveOpts, evidence, repla
 		}
 		exit = 1
 	}
+	// thorough tier: cross-validation of contracts and engine against the running code.  With
+	// every obligation discharged, the property's executable oracle (several seeds) and the kept
+	// demonstration tests are run against the tree; a failing input found here is a violation
+	// the proof missed (a wrong assumption, a modelling error or a hole in a contract), and is
+	// reported as such.  This part is a bounded search, never counted as proof.
+	var crossNotes []string
+	if tier == "thorough" && exit == 0 {
+		work, _ := os.MkdirTemp("", "govc-cross-")
+		ran := 0
+		for _, f := range oracleFiles(prop) {
+			oracle := filepath.Join("/verif/oracle", f)
+			if _, err := os.Stat(oracle); err != nil {
+				continue
+			}
+			for seed := 1; seed <= 3; seed++ {
+				os.Setenv("VERIF_SEED", fmt.Sprint(seed))
+				rep := map[string]interface{}{"property": prop, "obligation": "cross-validation/oracle", "kind": "oracle"}
+				ran++
+				if eng.runOracle(prop, oracle, nil, rep, work) {
+					path := filepath.Join(replayDir, prop, "cross_validation_oracle.json")
+					writeJSON(path, rep)
+					violationLines = append(violationLines, fmt.Sprintf("VIOLATION property=%s replay=%s", prop, path))
+					exit = 1
+					break
+				}
+			}
+		}
+		demos, _ := filepath.Glob("/verif/seeded/" + prop + "-*/demo_test.go")
+		for _, d := range demos {
+			rep := map[string]interface{}{"property": prop, "obligation": "cross-validation/demonstration", "kind": "oracle"}
+			ran++
+			if eng.runDemo(prop, d, rep, work) {
+				path := filepath.Join(replayDir, prop, "cross_validation_demo.json")
+				writeJSON(path, rep)
+				violationLines = append(violationLines, fmt.Sprintf("VIOLATION property=%s replay=%s", prop, path))
+				exit = 1
+			}
+		}
+		os.RemoveAll(work)
+		crossNotes = append(crossNotes, fmt.Sprintf("bounded: cross-validation on the real code - %d runs of the property's oracle (seeds 1..3) and kept demonstration tests, all in agreement with the proof: %v", ran, exit == 0))
+	}
 	wall := time.Since(start).Seconds()
 
 	// evidence
@@ -506,7 +547,7 @@ func runProperty(eng *Engine, prop, tier string, opts solveOpts, evidence, repla
 		"failed":                failedNames,
 		"known_findings_matched": nKnown,
 		"contract_files":        eng.lib.Files,
-		"bounded":               boundedNotes[prop],
+		"bounded":               append(append([]string(nil), boundedNotes[prop]...), crossNotes...),
 	}
 	ev := map[string]interface{}{
 		"property_id": prop,
